@@ -25,6 +25,8 @@ partial def parseInstr : Sexp → Option Instr
   | .list (.atom "bstream" :: x :: n :: e :: lim :: body) => do
       pure (.stream (← x.nat?) (← n.nat?) (← parseExpr e) (← lim.nat?) (← parseInstrs body))
   | .list [.atom "abortcmd", n] => do pure (.abortCmd (← n.nat?))
+  | .list (.atom "handoff" :: x :: n :: e :: body) => do
+      pure (.handoff (← x.nat?) (← n.nat?) (← parseExpr e) (← parseInstrs body))
   | .list (.atom "spawn" :: h :: body) => do pure (.spawn (← h.nat?) (← parseInstrs body))
   | .list [.atom "await", h] => do pure (.await (← h.nat?))
   | .list [.atom "abort", h] => do pure (.abortTask (← h.nat?))
@@ -132,7 +134,7 @@ def hasDrop (acts : List Action) : Bool := acts.any fun | .drop _ => true | _ =>
 partial def legacyExpressible (is : List Instr) : Bool :=
   is.all fun
     | .await _ | .abortTask _ | .abortCmd _ | .host _ _ => false
-    | .stream _ _ _ _ body | .spawn _ body => legacyExpressible body
+    | .stream _ _ _ _ body | .spawn _ body | .handoff _ _ _ body => legacyExpressible body
     | .join a b | .select a b => legacyExpressible a && legacyExpressible b
     | _ => true
 
